@@ -864,7 +864,9 @@ class FakePoll(object):
             raise socket.error(act[1], "injected")
 
         def ready():
-            return any(k is not None and k._readable() for k in socks)
+            # Linux semantics: data, end-of-stream from the peer, or a shutdown() of the socket itself wake a poller;
+            # a mere close() of the descriptor by another thread does not
+            return any(k is not None and (bool(k.buf) or k._eof() or k.shut_wr) for k in socks)
         if s.current() is None:
             k = socks[0]
             if not ready() and k.pump and not k.in_pump:
@@ -880,7 +882,7 @@ class FakePoll(object):
         else:
             dl = None if timeout is None else s.now + timeout
             s.yield_op("poll", socks[0], enabled=ready, deadline=dl)
-        return [(k.fd, "r") for k in socks if k is not None and k._readable()]
+        return [(k.fd, "r") for k in socks if k is not None and (bool(k.buf) or k._eof() or k.shut_wr)]
 
 
 # --------------------------------------------------------------------------- wiring rpyc
